@@ -789,9 +789,21 @@ func workCase(c string) string {
 		}
 		proj = sb.proj
 	}
+	if !binary {
+		// the project directory's own name is full of glob meta-characters: dependencies are relative to it, never part
+		// of a pattern
+		proj = filepath.Join(root, "pr[o]j{a,b}")
+	}
 	_ = os.MkdirAll(filepath.Join(proj, "src"), 0o755)
 	for _, f := range []int{0, 1, 2} {
 		_ = os.WriteFile(filepath.Join(proj, files[f]), []byte("v1"), 0o644)
+	}
+	// `b` starts its life as a symbolic link to a regular file kept outside the project: a dependency is the file the path
+	// leads to (edits go through the link; a delete removes the link, a later write makes a plain file)
+	store := filepath.Join(root, "store-b")
+	if os.WriteFile(store, []byte("v1"), 0o644) == nil {
+		_ = os.Remove(filepath.Join(proj, files[1]))
+		_ = os.Symlink(store, filepath.Join(proj, files[1]))
 	}
 
 	fail := map[string]bool{}
